@@ -27,8 +27,11 @@ structure Mon where
 inductive Call | add (w : Nat) (x : Task) | wait (w : Nat) | other
   deriving Repr
 
-/-- one observed line: the call issued (if any), who is idle afterwards, which callbacks ended -/
-def Mon.step (m : Mon) (call : Call) (idle : Nat → Bool) (nf : List Task) : Mon × List String :=
+/-- one observed line: the call issued (if any), who is idle afterwards, which callbacks ended; `endsAt w` =
+the callbacks of this line that had ended when the `Wait` of caller `w` returned (all of them if the harness
+gave no order) -/
+def Mon.step (m : Mon) (call : Call) (idle : Nat → Bool) (nf : List Task)
+    (endsAt : Nat → List Task := fun _ => nf) : Mon × List String :=
   let dupMsgs := nf.filterMap fun x =>
     if m.fin.contains x || decide (nf.count x > 1) then some s!"task {x} handed to the callback twice"
     else if !(m.issued.contains x) && (match call with | .add _ y => y != x | _ => true) then
@@ -40,7 +43,7 @@ def Mon.step (m : Mon) (call : Call) (idle : Nat → Bool) (nf : List Task) : Mo
     | .other => m
   let done := m1.pending.filter fun p => idle p.1
   let waitMsgs := (m1.waits.filter fun p => idle p.1).flatMap fun p =>
-    (p.2.filter fun x => ¬ fin.contains x).map fun x =>
+    (p.2.filter fun x => ¬ (m.fin ++ endsAt p.1).contains x).map fun x =>
       s!"Wait of caller {p.1} returned before the callback of task {x} ended (its Add had returned before the Wait)"
   ({ m1 with fin := fin, returned := m1.returned ++ done.map (·.2),
              pending := m1.pending.filter fun p => ¬ idle p.1,
